@@ -86,8 +86,10 @@ Definition dnskey_part (signer : name) (km : msg) : list rr :=
                    ((r_type r =? T_DNSKEY) || match sig_of r with Some s => (r_type r =? T_RRSIG) && (s_cov s =? T_DNSKEY) | None => false end))
          (m_ans km).
 
-(* verifyDNSSEC with the repair: the signer's DNSKEY RRset must verify under a key that a DS of
-   the parent's set matches, before any other key of the set is believed *)
+(* verifyDNSSEC with the repair (props/C01/fix.patch): when the response under validation IS the
+   signer's DNSKEY answer, its DNSKEY RRset must verify under a key that a DS of the parent's set
+   matches, before any other key of the set is believed.  (Keys obtained through the sub-query
+   path went through this check when that DNSKEY answer was itself resolved.) *)
 Definition verify_dnssec_fixed (E : env) (signer : name) (resp : msg) (parentDS : list rr) : bool * option err :=
   let own := (m_qtype resp =? T_DNSKEY) && name_eqb (m_qname resp) signer in
   if own && match signer with [] => true | _ => false end then verify_root_keys E resp else
@@ -105,7 +107,8 @@ Definition verify_dnssec_fixed (E : env) (signer : name) (resp : msg) (parentDS 
               | (true, Some _) => (false, None)
               | (false, Some e) => (false, Some e)
               | (_, None) =>
-                  match verify_rrsig (e_nrank E) (e_now E) signer (ds_matched parentDS keys) (dnskey_part signer km) [] with
+                  match (if own then verify_rrsig (e_nrank E) (e_now E) signer (ds_matched parentDS keys) (dnskey_part signer km) []
+                         else (true, None)) with
                   | (_, Some e) => (false, Some e)
                   | (false, None) => (false, None)
                   | (true, None) =>
@@ -125,28 +128,39 @@ Definition verify_dnssec_fixed (E : env) (signer : name) (resp : msg) (parentDS 
 Lemma fixed_rejects_witness : verify_dnssec_fixed E0 zn forged_keys ds_parent = (false, Some EMissingDNSKEY).
 Proof. vm_compute. reflexivity. Qed.
 
+Definition own_query (signer : name) (resp : msg) : bool := (m_qtype resp =? T_DNSKEY) && name_eqb (m_qname resp) signer.
 Definition root_own (signer : name) (resp : msg) : bool :=
-  (m_qtype resp =? T_DNSKEY) && name_eqb (m_qname resp) signer && match signer with [] => true | _ => false end.
+  own_query signer resp && match signer with [] => true | _ => false end.
 Lemma verify_dnssec_fixed_inv E signer resp parentDS :
   root_own signer resp = false ->
   verify_dnssec_fixed E signer resp parentDS = (true, None) ->
-  exists m, (if (m_qtype resp =? T_DNSKEY) && name_eqb (m_qname resp) signer then LMsg resp else e_key E signer) = LMsg m /\
-    verify_rrsig (e_nrank E) (e_now E) signer (ds_matched parentDS (keys_of_msg signer m)) (dnskey_part signer m) [] = (true, None) /\
+  exists m, (if own_query signer resp then LMsg resp else e_key E signer) = LMsg m /\
+    (own_query signer resp = true ->
+       verify_rrsig (e_nrank E) (e_now E) signer (ds_matched parentDS (keys_of_msg signer m)) (dnskey_part signer m) [] = (true, None)) /\
     verify_rrsig (e_nrank E) (e_now E) signer (keys_of_msg signer m) (m_ans resp) (m_ns resp) = (true, None).
 Proof.
-  unfold root_own. intros Hro.
+  unfold root_own, own_query. intros Hro.
   unfold verify_dnssec_fixed. rewrite Hro.
-
-  destruct (if (m_qtype resp =? T_DNSKEY) && name_eqb (m_qname resp) signer then LMsg resp else e_key E signer) as [i|m]; [discriminate|].
-  intros H. exists m. split; [reflexivity|].
-  remember (keys_of_msg signer m) as keys eqn:Hkeys.
-  destruct keys as [|k0 ks]; [discriminate|].
-  destruct parentDS as [|d0 ds]; [discriminate|].
-  repeat match type of H with
-         | context[let (_, _) := ?x in _] => destruct x as [? [?|]] eqn:?
-         | context[if ?b then _ else _] => destruct b eqn:?
-         end; try discriminate.
-  all: split; reflexivity.
+  destruct ((m_qtype resp =? T_DNSKEY) && name_eqb (m_qname resp) signer) eqn:Eown.
+  - intros H. exists resp. split; [reflexivity|].
+    remember (keys_of_msg signer resp) as keys eqn:Hkeys.
+    destruct keys as [|k0 ks]; [discriminate|].
+    destruct parentDS as [|d0 ds]; [discriminate|].
+    repeat match type of H with
+           | context[let (_, _) := ?x in _] => destruct x as [? [?|]] eqn:?
+           | context[if ?b then _ else _] => destruct b eqn:?
+           end; try discriminate.
+    all: split; [intros _; reflexivity|reflexivity].
+  - destruct (e_key E signer) as [i|m]; [discriminate|].
+    intros H. exists m. split; [reflexivity|]. split; [discriminate|].
+    remember (keys_of_msg signer m) as keys eqn:Hkeys.
+    destruct keys as [|k0 ks]; [discriminate|].
+    destruct parentDS as [|d0 ds]; [discriminate|].
+    repeat match type of H with
+           | context[let (_, _) := ?x in _] => destruct x as [? [?|]] eqn:?
+           | context[if ?b then _ else _] => destruct b eqn:?
+           end; try discriminate.
+    all: reflexivity.
 Qed.
 
 Section Fixed.
@@ -209,28 +223,29 @@ Section Fixed.
       unfold gk in Hh. injection Hh as _ Ht _. rewrite Ht. apply N.eqb_eq. exact Et.
   Qed.
 
+  (* the DNSKEY answer itself: accept ⇒ every key of its RRset is the zone's own *)
   Lemma keys_fixed_honest E signer resp parentDS :
-    root_own signer resp = false ->
+    root_own signer resp = false -> own_query signer resp = true ->
     (forall d k, In d parentDS -> ds_binds d k -> honest (k_mat k)) ->
-    let km := if (m_qtype resp =? T_DNSKEY) && name_eqb (m_qname resp) signer then LMsg resp else e_key E signer in
-    (forall m, km = LMsg m -> unforgeable honest zone_signed (m_ans m) /\ publishes_own_keys (m_ans m)) ->
+    unforgeable honest zone_signed (m_ans resp) -> publishes_own_keys (m_ans resp) ->
     verify_dnssec_fixed E signer resp parentDS = (true, None) ->
-    exists m, km = LMsg m /\ forall k, In k (keys_of_msg signer m) -> honest (k_mat k).
+    forall k, In k (keys_of_msg signer resp) -> honest (k_mat k).
   Proof.
-    intros Hnr Hds km Hkm Hv.
+    intros Hnr Hown Hds Hu Hp Hv.
     apply verify_dnssec_fixed_inv in Hv as (m & Em & Hv1 & _); [|exact Hnr].
-    exists m. split; [exact Em|].
-    destruct (Hkm m Em) as [Hu Hp].
+    rewrite Hown in Em. injection Em as <-.
     eapply dnskey_rrset_authentic; eauto.
   Qed.
 
-  (* the repaired verifyDNSSEC: accept ⇒ every key it used is the zone's own AND every RRset of the
-     validated response was signed by the zone *)
+  (* the repaired verifyDNSSEC: accept ⇒ every RRset of the validated response was signed by the zone,
+     provided the keys it used are the zone's own — which the lemma above gives for the DNSKEY answer,
+     and which is the invariant of the store for keys fetched through a sub-query *)
   Theorem verify_dnssec_fixed_sound_lemma E signer resp parentDS :
     root_own signer resp = false ->
     (forall d k, In d parentDS -> ds_binds d k -> honest (k_mat k)) ->
-    let km := if (m_qtype resp =? T_DNSKEY) && name_eqb (m_qname resp) signer then LMsg resp else e_key E signer in
-    (forall m, km = LMsg m -> unforgeable honest zone_signed (m_ans m) /\ publishes_own_keys (m_ans m)) ->
+    (if own_query signer resp
+     then unforgeable honest zone_signed (m_ans resp) /\ publishes_own_keys (m_ans resp)
+     else forall m, e_key E signer = LMsg m -> forall k, In k (keys_of_msg signer m) -> honest (k_mat k)) ->
     unforgeable honest zone_signed (m_ans resp ++ m_ns resp) ->
     verify_dnssec_fixed E signer resp parentDS = (true, None) ->
     let dn := dnames_of signer (m_ans resp) (m_ns resp) in
@@ -240,10 +255,14 @@ Section Fixed.
     (forall r, In r (m_ns resp) -> passes signer dn true r = true ->
        exists set, vouched_set zone_signed (e_now E) signer (m_ans resp) (m_ns resp) dn r set).
   Proof.
-    intros Hnr Hds km Hkm Hu Hv dn.
-    destruct (keys_fixed_honest E signer resp parentDS Hnr Hds Hkm Hv) as (m & Em & Hk).
-    apply verify_dnssec_fixed_inv in Hv as (m' & Em' & _ & Hv2); [|exact Hnr].
-    unfold km in Em. rewrite Em in Em'. injection Em' as <-.
-    exact (verify_rrsig_sound_lemma honest zone_signed _ _ _ _ _ _ Hv2 Hk Hu).
+    intros Hnr Hds Hsrc Hu Hv dn.
+    pose proof Hv as Hv0.
+    apply verify_dnssec_fixed_inv in Hv as (m & Em & _ & Hv2); [|exact Hnr].
+    destruct (own_query signer resp) eqn:Eown.
+    - injection Em as <-. destruct Hsrc as [Hu1 Hp].
+      assert (Hk : forall k, In k (keys_of_msg signer resp) -> honest (k_mat k))
+        by (eapply keys_fixed_honest; eauto).
+      exact (verify_rrsig_sound_lemma honest zone_signed _ _ _ _ _ _ Hv2 Hk Hu).
+    - exact (verify_rrsig_sound_lemma honest zone_signed _ _ _ _ _ _ Hv2 (Hsrc m Em) Hu).
   Qed.
 End Fixed.
